@@ -196,12 +196,13 @@ def namespaceAt (reg : Registry) (f : Forest) (loc : Loc) : String :=
         | some o => (o.stmt.argOf? "namespace").getD ""
         | none => ""
 
-/-- Go: `InstantiatingModule()`: the name of the one loaded module with that namespace; an error
-(`none`) when there is none or when two different loaded modules share it. -/
+/-- Go: `InstantiatingModule()`: the name of the loaded module(s) with that namespace; an error
+(`none`) when there is none or when loaded modules of different names share it (after the
+repair, several revisions of one name are one module). -/
 def instantiatingModuleAt (reg : Registry) (f : Forest) (loc : Loc) : Option String :=
   let ns := namespaceAt reg f loc
   match reg.distinctModules.filter (fun m => (m.stmt.argOf? "namespace").getD "" == ns) with
-  | [m] => some m.name
-  | _ => none
+  | [] => none
+  | m :: rest => if rest.all (·.name == m.name) then some m.name else none
 
 end Goyang.Model
